@@ -1,6 +1,8 @@
 package mod
 
 import (
+	"math/big"
+
 	"go.dedis.ch/kyber/v4"
 	"go.dedis.ch/kyber/v4/compatible/compatiblemod"
 )
@@ -138,4 +140,48 @@ func HarnessModIntSetBytes(p0, p1, p2 int) {
 	j.BO = bo
 	j.SetBytes(buf)
 	vassert(j.V.Int.Int64() == got, "SetBytes on a used receiver gives the same value")
+}
+
+// C02 — moduli wider than a machine word (every group order of the library is): SetInt64 / NewInt64 / Init64 for ALL
+// int64 values (negative ones wrap to m - |v|, including the minimum) and SetUint64 for ALL uint64 values are the value
+// reduced into [0, m). p0: 0 -> m = 2^64 + 13, 1 -> m = 2^127 - 1, 2 -> m = 2^252 + 27742317777372353535851937790883648493
+// (the Ed25519 group order); p1: 0 NewInt64, 1 SetInt64 on a used receiver, 2 SetUint64 on a used receiver, 3 Init64.
+func HarnessModIntWide(p0, p1 int) {
+	M := new(big.Int).Lsh(big.NewInt(1), 64)
+	M.Add(M, big.NewInt(13))
+	switch p0 {
+	case 1:
+		M.Lsh(big.NewInt(1), 127)
+		M.Sub(M, big.NewInt(1))
+	case 2:
+		M.SetString("7237005577332262213973186563042994240857116359379907606001950938285454250989", 10)
+	}
+	m := compatiblemod.FromBigInt(M)
+	v := nondetI64()
+	u := nondetU64()
+	var got *Int
+	signed := true
+	switch p1 {
+	case 0:
+		got = NewInt64(v, m)
+	case 1:
+		got = NewInt64(int64(nondetIntRange(0, 1000)), m)
+		got.SetInt64(v)
+	case 2:
+		got = NewInt64(int64(nondetIntRange(0, 1000)), m)
+		got.SetUint64(u)
+		signed = false
+	case 3:
+		got = new(Int).Init64(v, m)
+	}
+	vreach("end")
+	vassert(got.V.Int.Sign() >= 0 && got.V.Int.Cmp(M) < 0, "the result is canonical (0 <= value < m)")
+	d := new(big.Int)
+	if signed {
+		d.Sub(&got.V.Int, big.NewInt(v))
+	} else {
+		d.Sub(&got.V.Int, new(big.Int).SetUint64(u))
+	}
+	d.Mod(d, M)
+	vassert(d.Sign() == 0, "the result is congruent to the argument modulo m")
 }
